@@ -21,7 +21,7 @@ CHFL = ["--la", "0,1,2", "--one", "1", "--cost", "0", "--rec", "0"]
 
 TRUST = [
     "reference model harness/ref.hpp (span fixpoint + plain recursion), self-checked on closed-form facts",
-    "small-scope hypothesis: nothing is claimed outside the stated families / lengths",
+    "small-scope hypothesis: nothing is claimed outside the stated families / lengths (per grammar the length bound is lowered until it has <= 60 000 inputs)",
     "gcc, its sanitizer runtimes, fork semantics",
 ]
 
